@@ -167,5 +167,13 @@ func (s *Server) handleRPC(stream *drpcstream.Stream, rpc string) (err error) {
 	if err != nil {
 		return errs.Wrap(stream.SendError(err))
 	}
-	return errs.Wrap(stream.CloseSend())
+	err = stream.CloseSend()
+
+	// the handler has returned, so nothing will ever receive from this stream
+	// again. terminate it locally so that messages the client is still sending
+	// are dropped instead of parking the connection's reader forever, which
+	// would keep every later rpc on the connection from being seen.
+	stream.Cancel(context.Canceled)
+
+	return errs.Wrap(err)
 }
